@@ -23,7 +23,13 @@ def run(ctx):
     except ImportError:
         pty = None
         extra = []
+    # unbounded complement: the length invariant is inductive for chunk lengths / amounts of any magnitude (Apalache);
+    # the pre-fix clear_but_last must break it (vacuity control)
+    import concurrent.futures as cf
+    apa_pool = cf.ThreadPoolExecutor(max_workers=1)
+    apa = apa_pool.submit(lib.inductive, ctx, "apalache/IOQueueInd", "IOQueueInd", "NextOld", "Apalache, Gen(8) chunks, unbounded integers")
     res = lib.tlc_parallel(runs + [e[0] for e in extra])
+    apa.result()
     names = [f"IOQueueImpl.{tier}.cfg"] + [e[1] for e in extra]
     acts = [["DoWrite", "DoFlush", "DoRead", "DoConsume", "DoDrop"]] + [e[2] for e in extra]
     for name, r, a in zip(names, res, acts):
